@@ -193,7 +193,22 @@ def check_waits(ctx, rid, cls, cvfield, mutex, pred_fields):
     return ws
 
 
-def notify_follows(f, write_pos, cvfield, pred_fields, cls, require_all=True, la=None, mutex=None):
+def _uncounted_waits(fb, rec, cvfield, counters):
+    """None if every wait on this.<cvfield> in class `rec` is dominated by an increment of each field in `counters`;
+    otherwise the location of a wait that is not"""
+    for g in fb.functions(rec=rec):
+        for st in g.stmts.values():
+            if st["k"] == "CXXMemberCallExpr" and (st.get("callee") or {}).get("name") in ("wait", "wait_for", "wait_until") and \
+                    path(g, g.s(st.get("obj"))) == "this." + cvfield and g.pos_of(st):
+                for c in counters:
+                    incs = [s2 for s2 in g.stmts.values() if s2["k"] in ("UnaryOperator", "CompoundAssignOperator") and
+                            s2.get("op") in ("++", "+=") and path(g, g.children(s2)[0]) == "this." + c and g.pos_of(s2)]
+                    if not any(g.dominates(tuple(g.pos_of(i)), tuple(g.pos_of(st))) for i in incs):
+                        return g.loc(st)
+    return None
+
+
+def notify_follows(f, write_pos, cvfield, pred_fields, cls, require_all=True, la=None, mutex=None, fb=None):
     """a notify on this.<cvfield> follows write_pos on every path to the exit,
     or is bypassed only through a branch whose condition reads pred_fields only.
     returns (ok, detail)"""
@@ -233,8 +248,18 @@ def notify_follows(f, write_pos, cvfield, pred_fields, cls, require_all=True, la
         nb = p[0]
         for pb in f.blocks[nb].preds:
             blk = f.blocks[pb]
+            # `if (a && b)`: the test starts in the block that evaluates `a`; that one has to be on every path
+            top = pb
+            while blk.term and len(f.blocks[top].preds) == 1:
+                up = f.blocks[f.blocks[top].preds[0]]
+                if up.term and up.term.get("k") == "BinaryOperator" and \
+                        any(d["id"] == up.term.get("s") for d in f.descendants(f.s(blk.term.get("cond")))):
+                    top = f.blocks[top].preds[0]
+                else:
+                    break
+            tb = f.blocks[top]
             if blk.term and blk.term.get("cond") and len(blk.succs) == 2 and \
-                    f.postdominates((pb, len(blk.elems) - 1 if blk.elems else 0), write_pos):
+                    f.postdominates((top, len(tb.elems) - 1 if tb.elems else 0), write_pos):
                 cond = f.s(blk.term["cond"])
                 names = set()
                 other = False
@@ -275,6 +300,16 @@ def notify_follows(f, write_pos, cvfield, pred_fields, cls, require_all=True, la
                                 work.append(inits[0])
                             else:
                                 other = True
+                extra = names - set(pred_fields)
+                if extra and not other and fb is not None:
+                    # `... && waiters_ > 0`: skipping the notify because nobody is waiting is sound exactly when every wait on
+                    # this condition variable is counted - in every function, before it blocks, under the same mutex
+                    uncounted = _uncounted_waits(fb, f.rec, cvfield, extra)
+                    if uncounted is None:
+                        names = names - extra
+                    else:
+                        return False, "the notify is skipped when %s says nobody waits, but the wait at %s is not counted in it: that " \
+                                      "thread blocks for ever once the state it waits for is reached" % (sorted(extra), uncounted)
                 if names and names <= set(pred_fields) and not other:
                     if unlocked_read:
                         return False, "the decision whether to notify re-reads %s at %s after the mutex was released: a " \
